@@ -1,7 +1,10 @@
-(* Properties_C11.v — C11: grammar analysis never certifies a grammar that can loop without progress. *)
-From PegtlV Require Import Base Decode Grammar Engine Analyze AnalyzeFacts.
+(* Properties_C11.v — C11: grammar analysis never certifies a grammar that can loop without progress.
+   Model: Analyze.v (analyze_traits.hpp + analyze.hpp) and Engine.v; proofs: AnalyzeFacts.v (stage A),
+   AnalyzeSound.v / AnalyzeCons.v / AnalyzeTerm.v (stage B). *)
+From PegtlV Require Import Base Decode Grammar Engine AtomFacts Analyze AnalyzeFacts AnalyzeSound AnalyzeCons AnalyzeTerm.
 
-(* Stage A: a call of work() that leaves the problem counter unchanged establishes the judgement okw *)
+(* ---- Stage A: about work()/problems() only ---- *)
+(* a call of work() that leaves the problem counter unchanged establishes the judgement okw (fuel exhaustion counts) *)
 Theorem C11_work_ok : forall ent fuel stack r pr b pr',
   work ent fuel stack r false pr = (b, pr') -> pr <= pr' /\ (pr' = pr -> okw ent stack r b).
 Proof. exact work_ok. Qed.
@@ -15,3 +18,54 @@ Print Assumptions C11_okw_antitone.
 Theorem C11_problems_zero : forall G, problems G = 0 -> forall a, In a (roots G) -> exists b, okw (aentry G) [] a b.
 Proof. exact problems_zero. Qed.
 Print Assumptions C11_problems_zero.
+
+(* ---- Stage B ---- *)
+(* the "consumes" answer is sound: a rule visited without a problem and answered "consumes" strictly shortens the
+   input whenever it succeeds (all fuels, configurations, modes, cursors) *)
+Theorem C11_consumes_sound : forall G C, table_wf G -> heads_covered G = true ->
+  forall f r, (exists h stk, okh (aentry G) h stk (rl r) true) ->
+  forall d c c' evs, eval G C f d r c = Res Ok c' evs -> length (rest c') < length (rest c).
+Proof. exact cons_sound. Qed.
+Print Assumptions C11_consumes_sound.
+
+(* zero problems => every run terminates.
+   FULL STATEMENT (goal):  problems G = 0 -> forall C d r c, exists f, eval G C f d r c <> Oof.
+   Proved here under three hypotheses:
+   - table_wf G: decoder widths of the atoms are those the library instantiates (true of every dumped table);
+   - cfg_plain_actions C: no change_action / change_action_and_state attachment.  NECESSARY in some form, see
+     C11_needs_acyclic_actions_refuted (two action families that switch to each other recurse for ever; that is user
+     code, not grammar).  A rank on action families would do; not done.
+   - heads_covered_term G: no node with head if_apply, until< Cond > (their trait is the trait of ANOTHER rule under
+     the own name), if_must / opt_must (trait names the rules inside must<...>, which are not sub-rules of the node),
+     until< Cond, Rule >, rep_min_max, rematch (cons_sound covers these three; the termination lemma is missing).
+     strict / star_strict have no trait (analyze<> does not compile): the model reports them as a problem, so they
+     never satisfy problems G = 0. *)
+Theorem C11_sound_partial : forall G C, table_wf G -> heads_covered_term G = true -> cfg_plain_actions C ->
+  problems G = 0 -> forall d r c, exists f, eval G C f d r c <> Oof.
+Proof. exact sound_partial. Qed.
+Print Assumptions C11_sound_partial.
+
+(* uniform version: one fuel bound per input length, for all rules, modes and cursors *)
+Theorem C11_sound_partial_uniform : forall G C, table_wf G -> heads_covered_term G = true -> cfg_plain_actions C ->
+  (forall r, r < length G -> exists b, okw (aentry G) [] (rl r) b) ->
+  forall L, exists F, forall r f d c, F <= f -> length (rest c) <= L -> eval G C f d r c <> Oof.
+Proof. exact terminates_upto. Qed.
+Print Assumptions C11_sound_partial_uniform.
+
+(* without a hypothesis on the action attachments the statement is false of the model (and of the library: the
+   recursion is in user-written Action< Rule > : change_action< Other > specialisations, invisible to analyze) *)
+Theorem C11_needs_acyclic_actions_refuted :
+  exists G C, table_wf G /\ heads_covered_term G = true /\ problems G = 0 /\
+              exists d r c, forall f, eval G C f d r c = Oof.
+Proof. exact change_action_cycle_refutes. Qed.
+Print Assumptions C11_needs_acyclic_actions_refuted.
+
+(* the hypotheses are satisfiable: a recursive grammar with plus / star / opt, recursion behind a consuming prefix *)
+Example C11_example_hypotheses :
+  table_wf ex_table /\ heads_covered_term ex_table = true /\ cfg_plain_actions plain_cfg /\ problems ex_table = 0.
+Proof. exact ex_table_hyps. Qed.
+Print Assumptions C11_example_hypotheses.
+
+Example C11_example_left_recursion_reported : problems ex_table_bad <> 0.
+Proof. exact ex_table_bad_problems. Qed.
+Print Assumptions C11_example_left_recursion_reported.
